@@ -300,6 +300,22 @@ def short(path):
     return path.split('::')[-1] if path else path
 
 
+_REF_FNS = None
+
+
+def ref_fns():
+    """function paths of every crate on the reference tree (the tree the rules were written against).  A function that is not in
+    this list was introduced later - typically a private helper that statements were moved into - and is transparent to the
+    rules: walking or tracing a function also walks the new functions it calls."""
+    global _REF_FNS
+    if _REF_FNS is None:
+        try:
+            _REF_FNS = {k: set(v) for k, v in json.load(open(os.path.join(os.path.dirname(os.path.abspath(__file__)), 'ref_fns.json'))).items()}
+        except OSError:
+            _REF_FNS = {}
+    return _REF_FNS
+
+
 class Fn:
     def __init__(self, crate, d):
         self.crate = crate
@@ -401,7 +417,9 @@ class Crate:
         when inline_closures; `skip(callee_of_enclosing_call)` can veto entering closures passed to e.g. spawn."""
         seen = set()
 
-        def rec(e, anc):
+        known = ref_fns().get(self.name)
+
+        def rec(e, anc, depth=0):
             for n, a in walk(e, anc):
                 yield n, a
                 if inline_closures and n.get('k') == 'closure' and n['def'] not in seen:
@@ -410,7 +428,15 @@ class Crate:
                         if skip is not None and skip(n, a):
                             continue
                         seen.add(n['def'])
-                        yield from rec(c.hir, a + (n,))
+                        yield from rec(c.hir, a + (n,), depth)
+                elif n.get('k') == 'call' and known is not None and depth < 3:
+                    # a function that did not exist on the reference tree (a helper statements were moved into) is transparent
+                    cp = callee(n)
+                    g = self.fns.get(cp)
+                    if g is not None and g.kind != 'Closure' and cp not in known and cp not in seen and cp != f.path and \
+                            getattr(g, 'hir', None) is not None:
+                        seen.add(cp)
+                        yield from rec(g.hir, a + (n,), depth + 1)
         yield from rec(f.hir, ())
 
     def calls(self, f, pred=None, **kw):
